@@ -21,6 +21,7 @@ RULE = ('histories: Hypothesis draws (primary of RSA/DSA/ECDSA/EdDSA + ECDH or R
         'characters), unlock-and-sign, unlock-and-decrypt, unlock-and-raise, wrong-passphrase unlock, nested unlock, export/import binary+armored, copy); foreign matrix: every '
         'secret-key algorithm x usage 254/255 x specifier simple/salted/iterated x 9 ciphers x 4 hashes (covering) plus mixed per-component passphrases and GNU-dummy stubs. '
         'Non-trivial: a history with protect and an unlock-scope exit, or a foreign form other than iterated/254; distinct by (algorithm, cipher, hash, specifier, usage, history shape).')
+RULE += ' Histories also hold protect() calls that are refused (IDEA, Twofish), after which the key must be what it was.'
 RULE += ' The foreign matrix also holds passphrases longer than the decoded S2K count (coded count 0) and RSA-2048/3072 keys whose usage-255 checksum wraps around 65536. Mixed forms: protected primary with unprotected subkey, primary in the clear with protected subkey, GnuPG stub primary with protected subkey, protect() while a subkey is still locked; the legacy protection form (usage octet = cipher id).'
 ASSUMPTIONS = ['the secret integers are known independently (key pool generated with cryptography)', 'object-graph walk is bounded (depth 10, 50000 objects); ciphertext blobs are exempt',
                'refpgp.keys/s2k/sym implement RFC 4880 5.5.3 independently']
@@ -89,7 +90,11 @@ def ref_recovers(blob, passphrase, kids):
     """-> list of problems: the reference decrypts every secret packet of the export and compares the integers"""
     probs = []
     want = {keypool.ref_public(k).fingerprint: keypool.numbers(k)[3] for k in kids}
-    for p in wire.split_packets(blob):
+    try:
+        pkts = wire.split_packets(blob)
+    except wire.WireError as e:
+        return ['the export is not a packet sequence: %s' % e]
+    for p in pkts:
         if p.tag not in (5, 7):
             continue
         try:
@@ -220,6 +225,31 @@ def run_history(c):
                     with key.unlock(pw):
                         key.protect(*args)
                 pw = newpw
+            elif op[0] == 'protect_refused':
+                # protect() with a cipher the library refuses to encrypt with (IDEA, Twofish): an exception inside the unlock scope like any
+                # other -- the key is afterwards what it was before, readable with the passphrase it had
+                bad = (newpw, cipher, halg) = (PWS[op[1] % len(PWS)] + '!', SymmetricKeyAlgorithm([1, 10][op[1] % 2]), HashAlgorithm(HASHES[op[1] % len(HASHES)]))
+                try:
+                    if pw is None:
+                        key.protect(*bad)
+                    else:
+                        with key.unlock(pw):
+                            key.protect(*bad)
+                    pw = newpw        # not refused after all: an ordinary protect()
+                except Exception:   # noqa
+                    if pw is None:
+                        if key.is_protected:
+                            f.append(('protect', 'refused-protect-changes-the-key/unprotected', '%s: is_protected after the refusal' % where))
+                        else:
+                            for p in works_unlocked(key, pub):
+                                f.append(('protect', 'refused-protect-changes-the-key/unprotected', '%s: %s' % (where, p)))
+                    else:
+                        try:
+                            with key.unlock(pw):
+                                for p in works_unlocked(key, pub):
+                                    f.append(('protect', 'refused-protect-changes-the-key/protected', '%s: %s' % (where, p)))
+                        except Exception as e:   # noqa
+                            f.append(('protect', 'refused-protect-changes-the-key/protected', '%s: the passphrase it had no longer unlocks: %r' % (where, e)))
             elif op[0] in ('unlock_sign', 'unlock_raise', 'nested'):
                 if pw is None:
                     continue
@@ -260,7 +290,7 @@ def run_history(c):
 
 def op_strategy():
     i = st.integers(0, 11)
-    return st.one_of(st.tuples(st.just('protect'), i, i, i), st.tuples(st.just('protect'), i, i, i), st.tuples(st.just('unlock_sign')), st.tuples(st.just('unlock_raise')),
+    return st.one_of(st.tuples(st.just('protect'), i, i, i), st.tuples(st.just('protect'), i, i, i), st.tuples(st.just('unlock_sign')), st.tuples(st.just('unlock_raise')), st.tuples(st.just('protect_refused'), i),
                      st.tuples(st.just('unlock_wrong'), i), st.tuples(st.just('nested')), st.tuples(st.just('export_import'), i), st.tuples(st.just('copy'))).map(list)
 
 
@@ -295,7 +325,7 @@ def w_matrix(arg):
             i += 1
             if i % nparts != part:
                 continue
-            c = {'primary': PRIMARIES[i % len(PRIMARIES)], 'sub': SUBS[i % len(SUBS)], 'ops': [['protect', ci, hi, i % len(PWS)], ['unlock_sign'], ['export_import', i]]}
+            c = {'primary': PRIMARIES[i % len(PRIMARIES)], 'sub': SUBS[i % len(SUBS)], 'ops': [['protect', ci, hi, i % len(PWS)], ['unlock_sign']] + ([['protect_refused', i]] if i % 3 == 0 else []) + [['export_import', i]]}
             f, shape = run_history(c)
             rec.case(('own', CIPHERS[ci], HASHES[hi], c['primary']), True, ['own/cipher%d' % CIPHERS[ci], 'own/hash%d' % HASHES[hi]], {'cipher': CIPHERS[ci], 'hash': HASHES[hi], 'key': c['primary']})
             for clause, cause, det in f:
